@@ -163,6 +163,24 @@ def check_obligation(ob, timeout_ms=10000):
     if z3.is_true(g):
         return 'discharged', 'simplifier', time.time() - t0, None
     quant = has_quantifier(ob.goal) or any(has_quantifier(h) for h in ob.hyps)
+    # stage 0: growing subsets of the hypotheses (none, those sharing a constant with the goal, the cone of
+    # influence).  Fewer hypotheses can only make the query harder to refute: unsat here is a proof.
+    if len(ob.hyps) > 4:
+        gs = const_symbols(ob.goal)
+        direct = [h for h in ob.hyps if const_symbols(h) & gs]
+        tried = set()
+        for label, hs, ms in (('goal-only', [], 700), ('direct', direct, 2000),
+                              ('coi', cone_of_influence(ob.hyps, ob.goal), 3000)):
+            if len(hs) >= len(ob.hyps) or len(hs) in tried:
+                continue
+            tried.add(len(hs))
+            s0 = z3.Solver()
+            s0.set('timeout', min(timeout_ms, ms))
+            for h in hs:
+                s0.add(h)
+            s0.add(z3.Not(ob.goal))
+            if s0.check() == z3.unsat:
+                return 'discharged', 'z3(%s)' % label, time.time() - t0, None
     s = z3.Solver()
     s.set('timeout', timeout_ms)
     for h in ob.hyps:
@@ -193,6 +211,52 @@ def check_obligation(ob, timeout_ms=10000):
     if cand is not None:
         return 'candidate', 'z3+instantiation', dt + dt2, cand
     return 'unknown', 'z3+cvc5:' + s.reason_unknown(), dt + dt2, None
+
+
+_cs_cache = {}
+
+
+def const_symbols(t):
+    """names of the uninterpreted constants of a term"""
+    k = t.get_id()
+    r = _cs_cache.get(k)
+    if r is not None:
+        return r[0]
+    out = set()
+    seen = set()
+    stack = [t]
+    while stack:
+        x = stack.pop()
+        i = x.get_id()
+        if i in seen:
+            continue
+        seen.add(i)
+        if z3.is_quantifier(x):
+            stack.append(x.body())
+        elif z3.is_app(x):
+            if x.num_args() == 0 and x.decl().kind() == z3.Z3_OP_UNINTERPRETED:
+                out.add(x.decl().name())
+            else:
+                stack.extend(x.children())
+    if len(_cs_cache) > 100000:
+        _cs_cache.clear()
+    _cs_cache[k] = (out, t)
+    return out
+
+
+def cone_of_influence(hyps, goal):
+    syms = set(const_symbols(goal))
+    hs = [(h, const_symbols(h)) for h in hyps]
+    chosen = [False] * len(hs)
+    changed = True
+    while changed:
+        changed = False
+        for i, (h, ss) in enumerate(hs):
+            if not chosen[i] and (ss & syms or not ss):
+                chosen[i] = True
+                syms |= ss
+                changed = True
+    return [h for (h, _), c in zip(hs, chosen) if c]
 
 
 def _apps(term, name, acc, seen):
